@@ -270,6 +270,8 @@ int Simulate1802::run(int cycles, int step)
 
   printf("Running... Press Ctl-C to break.\n");
 
+  stop_running = false;
+
   while (stop_running == false)
   {
     int pc = PC;
